@@ -486,3 +486,55 @@ Check C09_tree_to_text_cli_parsed :
   Forall (stmt_ok_parsed O key_ok None) p ->
   scan_comments (render (format_cli O p)) = forest_comments text forest.
 Print Assumptions C09_tree_to_text_cli_parsed.
+
+(* generic tool behind C09_shape_inner_pairs (every grammar): in an emitting context (lookahead off, atomicity not
+   Atomic) the rule names of the pairs an expression appends belong to the language [tops e] read off the expression:
+   a rule of the quiet set Q contributes nothing, a non-silent rule exactly its own name, a silent rule what S says
+   (S closed under unfolding rule bodies), sequence = concatenation, e* = star, predicates = nothing *)
+Theorem C09_shape_top_level_pairs :
+  forall (R : Type) (G : grammar R) (Q : R -> bool),
+  (forall r, Q r = true -> rd_mod (g_def G r) = MSilent) ->
+  (forall r, Q r = true -> forallb Q (idents R (rd_body (g_def G r))) = true) ->
+  (forall w, g_ws G = Some w -> Q w = true) ->
+  (forall c, g_comment G = Some c -> Q c = true) ->
+  (forall r, silentb R G r = true -> rd_trivia (g_def G r) = true -> Q r = true) ->
+  forall S : R -> list R -> Prop,
+  (forall r, silentb R G r = true -> Q r = false -> forall l, tops R G Q S (rd_body (g_def G r)) l -> S r l) ->
+  forall f m a e, a <> Atomic -> forall s,
+  match run G f m a false e s with
+  | Peg.Ok s' => exists new, out s' = new ++ out s /\ tops R G Q S e (map (troot R) (rev new))
+  | Peg.Fail s' => out s' = out s
+  | _ => True
+  end.
+Proof. exact run_tops. Qed.
+Check C09_shape_top_level_pairs :
+  forall (R : Type) (G : grammar R) (Q : R -> bool),
+  (forall r, Q r = true -> rd_mod (g_def G r) = MSilent) ->
+  (forall r, Q r = true -> forallb Q (idents R (rd_body (g_def G r))) = true) ->
+  (forall w, g_ws G = Some w -> Q w = true) ->
+  (forall c, g_comment G = Some c -> Q c = true) ->
+  (forall r, silentb R G r = true -> rd_trivia (g_def G r) = true -> Q r = true) ->
+  forall S : R -> list R -> Prop,
+  (forall r, silentb R G r = true -> Q r = false -> forall l, tops R G Q S (rd_body (g_def G r)) l -> S r l) ->
+  forall f m a e, a <> Atomic -> forall s,
+  match run G f m a false e s with
+  | Peg.Ok s' => exists new, out s' = new ++ out s /\ tops R G Q S e (map (troot R) (rev new))
+  | Peg.Fail s' => out s' = out s
+  | _ => True
+  end.
+Print Assumptions C09_shape_top_level_pairs.
+
+(* KEPT, NOT PROVED (still tested on every interpreter tree by the C09P / REPARSE streams, flags S and V): the two
+   hypotheses of C09_parse_keeps_comments as facts about Peg.parse.  What is proved of them is the TREE-level content
+   (C09_shape_comment_texts: no line feed in a comment text; C09_shape_inner_pairs: one return_statement, last, per
+   do_block; the optional second pair of a list_item / record_item is an eol_comment, of a do_statement / statement a
+   comment).  Missing for the ITEM-level predicates: (1) the induction over PegToItems.conv that transports the tree
+   facts to every nested item (item_all shape_here (conv ..)); (2) the conjunct "a do_statement that starts with a
+   comment has no second comment", which is not a rule-shape fact (kids_spec admits [comment; comment]) but a semantic
+   one: `comment` runs to the line break, so the optional `WHITESPACE* ~ comment` cannot match after it;
+   (3) forest_view_ok: that conv reads EVERY comment / eol_comment pair needs the inner-pair shapes of all 30
+   structural rules (list, record, lambda, conditional, call_list, ...), of which six are proved here. *)
+Definition C09_shape_items_full : Prop := forall fuel text s',
+  Peg.parse blots_grammar fuel PG_input text = Peg.Ok s' -> forest_shape_ok text (rev (out s')) = true.
+Definition C09_view_items_full : Prop := forall fuel text s',
+  Peg.parse blots_grammar fuel PG_input text = Peg.Ok s' -> forest_view_ok text (rev (out s')) = true.
